@@ -289,6 +289,23 @@ def run_check(pid, tier, seed, replay=None):
         kk = json.loads(k)
         log(f"KNOWN-FINDING: property={pid} {kk.get('what')}")
     k_mis = result.get("k_mismatch", [])
+    if (relevant_broken or k_mis) and not violations and not replay and tier == "quick" and os.environ.get("VALIDA_NO_SEARCH") != "1":
+        # a proof obligation, the translator or the correspondence broke and the quick sample shows no failing
+        # input: search deeper (the thorough generator, another seed) before reporting no-failing-input-found
+        log(f"{pid}: tie or proof broken, no failing input in the quick sample: searching with the thorough generator")
+        try:
+            deep = mod.run(tier="thorough", seed=seed + 7919, model_ok=model_ok, spec_ok=spec_ok, replay=None)
+        except Exception as ex:   # the search is best effort
+            log(f"{pid}: search failed: {ex!r}")
+            deep = {}
+        for v in deep.get("o_violations", []):
+            if not any(mod.matches_known(k, v) for k in known):
+                violations.append(v)
+        if not k_mis:
+            k_mis = deep.get("k_mismatch", [])
+        result["evaluations"] = result.get("evaluations", 0) + deep.get("evaluations", 0)
+        result["o_cases"] = result.get("o_cases", 0) + deep.get("o_cases", 0)
+        result["k_cases"] = result.get("k_cases", 0) + deep.get("k_cases", 0)
     if k_mis:
         relevant_broken.append({"kind": "correspondence", "detail": f"{len(k_mis)} case(s) where model and implementation differ",
                                 "first": k_mis[0]})
